@@ -173,7 +173,9 @@ func ParseResolve(text string, sys resolve.System) (*resolve.Graph, error) {
 				Version:     r.requirement,
 			}
 			if err := g.AddError(src, vk, r.err); err != nil {
-				return nil, fmt.Errorf("cannot add an error to %s", g.Nodes[src].Version)
+				// The source may not be a node at all (an error row under a
+				// root row that defines no node).
+				return nil, fmt.Errorf("line %d: cannot add an error: %w", r.line, err)
 			}
 			continue
 		}
@@ -184,7 +186,7 @@ func ParseResolve(text string, sys resolve.System) (*resolve.Graph, error) {
 		}
 
 		if err := g.AddEdge(src, dst, r.requirement, r.dt); err != nil {
-			return nil, fmt.Errorf("cannot create edge from %s to %s", g.Nodes[src].Version, g.Nodes[dst].Version)
+			return nil, fmt.Errorf("line %d: cannot create edge: %w", r.line, err)
 		}
 	}
 
